@@ -20,7 +20,7 @@
 /*@unit {'name':'c06_find', 'props':['C06'], 'entry':'h_find', 'enforce':'Pass_findNDoRule', 'defines':['FIND','GRAPHITE2_NTRACING','NR=8','FINDN=24'], 'kind':'bounded', 'unwind':26,
   'bound':'candidate list of at most 24 entries (capacity is MAX_RULES=128) over a pass of 8 rules; collaborators runFSM/testConstraint/doAction/collectGarbage/adjustSlot are ghost models (truth table per rule, call log)',
   'claims':'findNDoRule (non-tracing build): candidates are tested in list order, each at most once, only while the machine is healthy; the rule acted on is the first candidate whose constraint is true (no earlier candidate passes), its action code is run exactly once, then garbage collection iff the action deletes and adjustSlot with the returned advance; if no candidate passes or the FSM does not run, no mutator is called and the cursor moves to slot->next(); a machine failure stops without action'}@*/
-/*@unit {'name':'c06_accumulate', 'props':['C06'], 'entry':'h_accum', 'enforce':'Rules_accumulate_rules', 'defines':['ACCUM','STUB_STORE'], 'min_loops':3,
+/*@unit {'name':'c06_accumulate', 'props':['C06'], 'entry':'h_accum', 'enforce':'Rules_accumulate_rules', 'defines':['ACCUM','STUB_STORE','MAXL=8','NRP=16'], 'min_loops':3, 'backend':'cadical', 'timeout':1500,
   'claims':'accumulate_rules, all list lengths up to the real MAX_RULES=128 (loop contracts): every store goes to the next free entry of the other half of m_rules and never beyond its 128 entries, stores are strictly ascending in the precedence order (output sorted and duplicate-free), every stored entry is read from one of the two input lists, and unless the cap of 128 is reached every entry of both inputs has been stored (an equal entry counts once); m_begin/m_end delimit exactly the stored entries'}@*/
 /*@unit {'name':'c06_accumulate_b', 'props':['C06'], 'entry':'h_accum_b', 'enforce':'Rules_accumulate_rules', 'defines':['ACCUM','REAL_STORE'], 'kind':'bounded', 'unwind':10,
   'bound':'both sorted input lists have at most 4 entries (rules drawn from a pass of 6 rules with symbolic sort keys); the real MAX_RULES=128, so the output cap is not reached',
@@ -46,9 +46,9 @@ typedef struct Rules { RuleEntry *m_begin, *m_end, m_rules[MAX_RULES*2]; } Rules
 const Rule *g_rules;      /* the pass's rule array (Pass::m_rules); every RuleEntry points into it */
 size_t g_nrules;
 #define IDX(p)      ((size_t)OFF(p) / sizeof(Rule))                    /* rule number: position in m_rules */
-#define ISRULE(p)   (SAME((p), g_rules) && OFF(p) >= 0 && (size_t)OFF(p) % sizeof(Rule) == 0 && IDX(p) < g_nrules)
+#define ISRULE(p)   (SAME((p), g_rules) && OFF(p) >= 0 && (size_t)OFF(p) < g_nrules * sizeof(Rule))
 /* the statement's order on rules: longest sort key first, then earliest rule */
-#define PREC(a, b)  ((a)->sort > (b)->sort || ((a)->sort == (b)->sort && IDX(a) < IDX(b)))
+#define PREC(a, b)  ((a)->sort > (b)->sort || ((a)->sort == (b)->sort && OFF(a) < OFF(b)))      /* lower address in m_rules = lower rule number */
 
 /* ------------------------------------------------------------------ contracts */
 bool RuleEntry_lt(const RuleEntry *self, const RuleEntry *r)
@@ -182,107 +182,136 @@ __CPROVER_ensures((g_nr != 0 && g_j < g_nr) ==> (in_list(self->m_begin, NSIZE(se
 #endif
 
 #ifdef STUB_STORE
-/* `*out++ = *x++` (the only store of the function) is a contract stub: its precondition is the memory safety of the store
-   and the ordering of the output, its effect is logged in ghost state (FRAMEWORK.md item 5; the real stores are executed
-   in unit c06_accumulate_b). */
-RuleEntry *g_obase;          /* the half of m_rules that receives the result */
-size_t g_cnt;                /* entries stored so far */
-const Rule *g_lastv;         /* rule of the last entry stored */
-const Rule *g_xl, *g_xr;     /* the rules named by L[g_i] and R[g_j] */
-bool g_seen_l, g_seen_r;     /* has an entry naming g_xl / g_xr been stored? */
+/* ---- unit c06_accumulate: inductive proof with loop contracts.
+   Spec side: each input entry is described by ghost mirror arrays (sort key and byte offset of its rule in the pass's
+   rule array), filled by the harness next to the memory it builds; all spec clauses (sortedness, invariants, the store
+   model) talk about the mirrors, so that no spec clause dereferences a pointer the loop contract has havocked (CBMC 6.11
+   resolves such a dereference against every object of the program).  Code side: the real operator< reads the real memory.
+   `*out++ = *x++` (the only store of the function) is replaced by a ghost model with a body: its asserts are the
+   memory safety of the store and the ordering of the output, its effect is logged (FRAMEWORK.md item 5; the real stores
+   run in unit c06_accumulate_b). */
+RuleEntry *g_obase;                    /* the half of m_rules that receives the result */
+size_t g_cnt;                          /* entries stored so far */
+unsigned short g_last_sort; long g_last_off;      /* key of the last entry stored */
+unsigned short g_lsort[MAX_RULES], g_rsort[MAX_RULES];   /* mirrors: sort key of the rule of L[k] / R[k] */
+long g_loff[MAX_RULES], g_roff[MAX_RULES];               /* mirrors: byte offset of that rule in the rule array (its rank among equal keys) */
+long g_xl_off, g_xr_off;               /* the rules named by L[g_i] and R[g_j] */
+bool g_seen_l, g_seen_r;               /* has an entry naming that rule been stored? */
 #define LIDX(p) ((size_t)(OFF(p) - OFF(g_lbase)) / sizeof(RuleEntry))
 #define RIDX(p) ((size_t)(OFF(p) - OFF(g_rbase)) / sizeof(RuleEntry))
 #define IN_L(p, strict) (SAME((p), g_lbase) && OFF(p) >= OFF(g_lbase) && (size_t)(OFF(p) - OFF(g_lbase)) % sizeof(RuleEntry) == 0 && (strict ? LIDX(p) < g_nl : LIDX(p) <= g_nl))
 #define IN_R(p, strict) (SAME((p), g_rbase) && OFF(p) >= OFF(g_rbase) && (size_t)(OFF(p) - OFF(g_rbase)) % sizeof(RuleEntry) == 0 && (strict ? RIDX(p) < g_nr : RIDX(p) <= g_nr))
 #define OUT_OK(p)  (SAME((p), g_obase) && OFF(p) == OFF(g_obase) + (long)(g_cnt * sizeof(RuleEntry)))
-/* (a ghost model with a body, not a replaced contract: dfcc contract replacement inside a loop contract costs minutes of
-   symbolic execution here; the asserts are the preconditions, the assignments the effect) */
+/* the statement's order on (sort key, rule offset) pairs: longest sort key first, then earliest rule */
+#define PRECM(s1, o1, s2, o2) ((s1) > (s2) || ((s1) == (s2) && (o1) < (o2)))
+#define LAST_BEFORE(s, o) PRECM(g_last_sort, g_last_off, (s), (o))
+
 static void RuleEntry_store(RuleEntry *dst, const RuleEntry *src)
 {
     __CPROVER_assert(OUT_OK(dst) && g_cnt < MAX_RULES, "store: next free entry, inside the 128-entry half of m_rules");
     __CPROVER_assert(IN_L(src, 1) || IN_R(src, 1), "store: the source is an entry of one of the two inputs");
-    __CPROVER_assert(g_cnt == 0 || PREC(g_lastv, src->rule), "store: strictly after the previous store in the precedence order");
-    g_cnt = g_cnt + 1; g_lastv = src->rule;
-    g_seen_l = g_seen_l || src->rule == g_xl; g_seen_r = g_seen_r || src->rule == g_xr;
+    const bool fromL = SAME(src, g_lbase);
+    const unsigned short s = fromL ? g_lsort[LIDX(src)] : g_rsort[RIDX(src)];
+    const long o = fromL ? g_loff[LIDX(src)] : g_roff[RIDX(src)];
+    __CPROVER_assert(g_cnt == 0 || LAST_BEFORE(s, o), "store: strictly after the previous store in the precedence order");
+    g_cnt = g_cnt + 1; g_last_sort = s; g_last_off = o;
+    g_seen_l = g_seen_l || o == g_xl_off; g_seen_r = g_seen_r || o == g_xr_off;
 }
 
 #ifndef NRP
-#define NRP 128              /* rules of the harness's pass */
+#define NRP 136              /* rules of the harness's pass */
 #endif
 #ifndef MAXL
 #define MAXL MAX_RULES       /* longest list the harness builds */
 #endif
-/* sorted list of rules of the pass: strictly ascending in the precedence order at every adjacent pair */
-static bool list_sorted_all(const RuleEntry *b, size_t n)
+/* sorted list: strictly ascending in the precedence order at every adjacent pair (hence duplicate-free) */
+static bool mirror_sorted(const unsigned short *srt, const long *off, size_t n)
 {
     bool ok = true;
-    for (size_t i = 0; i < MAXL; ++i)
-        ok = ok & (i >= n || (ISRULE(b[i].rule) && (i + 1 >= n || (ISRULE(b[i + 1].rule) && PREC(b[i].rule, b[i + 1].rule)))));
+    for (size_t i = 0; i + 1 < MAXL; ++i) ok = ok & (i + 1 >= n || PRECM(srt[i], off[i], srt[i + 1], off[i + 1]));
     return ok;
 }
+/* what the mirrors mean (ghost index k): entry k names the rule at that offset of the rule array, with that sort key */
+#define MIRROR_AT(base, srt, off, k) (ISRULE((base)[k].rule) && OFF((base)[k].rule) == (off)[k] && (base)[k].rule->sort == (srt)[k])
+
 void Rules_accumulate_rules(Rules *self, const State *state)
 __CPROVER_requires(self == g_self && state == g_state && self->m_begin == g_lbase && self->m_end == g_lbase + g_nl && g_nl <= MAX_RULES
                    && (g_lbase == self->m_rules || g_lbase == self->m_rules + MAX_RULES) && g_obase == OTHER_HALF(self, g_lbase))
 __CPROVER_requires(state->rules == g_rbase && state->rules_end == g_rbase + g_nr && g_nr <= MAX_RULES)
-__CPROVER_requires(list_sorted_all(g_lbase, g_nl) && list_sorted_all(g_rbase, g_nr))
-__CPROVER_requires(g_cnt == 0 && !g_seen_l && !g_seen_r && (g_i >= g_nl || g_xl == g_lbase[g_i].rule) && (g_j >= g_nr || g_xr == g_rbase[g_j].rule))
-__CPROVER_assigns(self->m_begin, self->m_end, g_cnt, g_lastv, g_seen_l, g_seen_r)
+__CPROVER_requires(mirror_sorted(g_lsort, g_loff, g_nl) && mirror_sorted(g_rsort, g_roff, g_nr))
+__CPROVER_requires((g_i >= g_nl || MIRROR_AT(g_lbase, g_lsort, g_loff, g_i)) && (g_j >= g_nr || MIRROR_AT(g_rbase, g_rsort, g_roff, g_j)))
+__CPROVER_requires(g_cnt == 0 && !g_seen_l && !g_seen_r && (g_i >= g_nl || g_xl_off == g_loff[g_i]) && (g_j >= g_nr || g_xr_off == g_roff[g_j]))
+__CPROVER_assigns(self->m_begin, self->m_end, g_cnt, g_last_sort, g_last_off, g_seen_l, g_seen_r)
 __CPROVER_ensures(g_nr == 0 ==> (self->m_begin == g_lbase && self->m_end == g_lbase + g_nl && g_cnt == 0))
 /* the result is exactly the stored entries, in the other half, at most MAX_RULES of them */
 __CPROVER_ensures(g_nr != 0 ==> (self->m_begin == g_obase && self->m_end == g_obase + g_cnt && g_cnt <= MAX_RULES))
-/* completeness: every entry of L (ghost index g_i) and of R (g_j) was stored (an entry naming the same rule), unless the cap was reached */
-__CPROVER_ensures((g_nr != 0 && g_cnt < MAX_RULES && g_i < g_nl) ==> g_seen_l)
-__CPROVER_ensures((g_nr != 0 && g_cnt < MAX_RULES && g_j < g_nr) ==> g_seen_r);
+/* completeness: every entry of L (ghost index g_i) and of R (g_j) was stored (an entry naming the same rule), unless the cap
+   was reached - and then it comes after everything that was kept */
+__CPROVER_ensures((g_nr != 0 && g_i < g_nl) ==> (g_seen_l || (g_cnt == MAX_RULES && LAST_BEFORE(g_lsort[g_i], g_loff[g_i]))))
+__CPROVER_ensures((g_nr != 0 && g_j < g_nr) ==> (g_seen_r || (g_cnt == MAX_RULES && LAST_BEFORE(g_rsort[g_j], g_roff[g_j]))));
 
+#define LI LIDX(lre)
+#define RI RIDX(rre)
 #define INV_PTRS   IN_L(lre, 0) && IN_R(rre, 0) && OUT_OK(out) && g_cnt <= MAX_RULES
-#define INV_ORDER  (g_cnt == 0 || ((LIDX(lre) >= g_nl || PREC(g_lastv, lre->rule)) && (RIDX(rre) >= g_nr || PREC(g_lastv, rre->rule))))
-#define INV_SEEN   ((g_i >= LIDX(lre) || g_i >= g_nl || g_seen_l) && (g_j >= RIDX(rre) || g_j >= g_nr || g_seen_r))
+/* the last entry stored precedes both heads */
+#define INV_ORDER  (g_cnt == 0 || ((LI >= g_nl || LAST_BEFORE(g_lsort[LI], g_loff[LI])) && (RI >= g_nr || LAST_BEFORE(g_rsort[RI], g_roff[RI]))))
+/* everything before the heads has been stored; the ghost entries, if still ahead, are not before their list's head */
+#define INV_SEEN   ((g_i >= LI || g_i >= g_nl || g_seen_l) && (g_j >= RI || g_j >= g_nr || g_seen_r))
+#define NOT_BEFORE(s1, o1, s2, o2) (!PRECM(s1, o1, s2, o2))
+#define INV_AHEAD  ((g_i < LI || g_i >= g_nl || NOT_BEFORE(g_lsort[g_i], g_loff[g_i], g_lsort[LI], g_loff[LI])) && (g_j < RI || g_j >= g_nr || NOT_BEFORE(g_rsort[g_j], g_roff[g_j], g_rsort[RI], g_roff[RI])))
+/* ghost re-anchoring of a cursor the loop contract havocked: the identity (asserted), it only tells the tool which object the cursor is in */
+#define ANCHOR_L { const RuleEntry *a_ = g_lbase + (lre - g_lbase); __CPROVER_assert(a_ == lre, "anchor is the identity"); lre = a_; }
+#define ANCHOR_R { const RuleEntry *a_ = g_rbase + (rre - g_rbase); __CPROVER_assert(a_ == rre, "anchor is the identity"); rre = a_; }
 /*@extract {'if':'STUB_STORE', 'file':'src/inc/Rule.h', 'sig': r'void FiniteStateMachine::Rules::accumulate_rules\(const State &state\)',
    'emit':'void Rules_accumulate_rules(Rules *self, const State *state)',
    'subs':[[r'state\.empty\(\)', 'State_empty(state)', 0], [r'\bstate\.', 'state->', 0], [r'\bbegin\(\)', 'Rules_begin(self)', 0], [r'\bend\(\)', 'Rules_end(self)', 0],
            [r'\*(\w+) < \*(\w+)', r'RuleEntry_lt(\1, \2)', 0],
            [r'\*out\+\+ = \*(\w+)\+\+;', r'RuleEntry_store(out++, \1++);', 0]],
    'self':['m_begin','m_end','m_rules'],
-   'loops':{1: """__CPROVER_assigns(lre, rre, out, g_cnt, g_lastv, g_seen_l, g_seen_r)
-                  __CPROVER_loop_invariant(INV_PTRS && RIDX(rre) < g_nr)
+   'inserts':[[1, 'ANCHOR_L ANCHOR_R'], [2, 'ANCHOR_L'], [3, 'ANCHOR_R']],
+   'loops':{1: """__CPROVER_assigns(lre, rre, out, g_cnt, g_last_sort, g_last_off, g_seen_l, g_seen_r)
+                  __CPROVER_loop_invariant(INV_PTRS && RI < g_nr)
                   __CPROVER_loop_invariant(INV_ORDER)
                   __CPROVER_loop_invariant(INV_SEEN)
-                  __CPROVER_decreases((g_nl - LIDX(lre)) + (g_nr - RIDX(rre)))""",
-            2: """__CPROVER_assigns(lre, out, g_cnt, g_lastv, g_seen_l, g_seen_r)
-                  __CPROVER_loop_invariant(INV_PTRS && RIDX(rre) == g_nr)
+                  __CPROVER_decreases((g_nl - LI) + (g_nr - RI))""",
+            2: """__CPROVER_assigns(lre, out, g_cnt, g_last_sort, g_last_off, g_seen_l, g_seen_r)
+                  __CPROVER_loop_invariant(INV_PTRS && RI == g_nr)
                   __CPROVER_loop_invariant(INV_ORDER)
                   __CPROVER_loop_invariant(INV_SEEN)
-                  __CPROVER_decreases(g_nl - LIDX(lre))""",
-            3: """__CPROVER_assigns(rre, out, g_cnt, g_lastv, g_seen_l, g_seen_r)
-                  __CPROVER_loop_invariant(INV_PTRS && (LIDX(lre) == g_nl || g_cnt == MAX_RULES))
+                  __CPROVER_decreases(g_nl - LI)""",
+            3: """__CPROVER_assigns(rre, out, g_cnt, g_last_sort, g_last_off, g_seen_l, g_seen_r)
+                  __CPROVER_loop_invariant(INV_PTRS && (LI == g_nl || g_cnt == MAX_RULES))
                   __CPROVER_loop_invariant(INV_ORDER)
                   __CPROVER_loop_invariant(INV_SEEN)
-                  __CPROVER_decreases(g_nr - RIDX(rre))"""}}@*/
+                  __CPROVER_decreases(g_nr - RI)"""}}@*/
 
-static void run_accum(Rules *R, RuleEntry *lbase, RuleEntry *obase, Rule *rs)
+static void run_accum(Rules *R, RuleEntry *lbase, RuleEntry *obase, Rule *rs, const unsigned short *sort)
 {
     size_t nl = nondet_size_t(), nr = nondet_size_t();
     unsigned char a[MAXL], b[MAXL];
     __CPROVER_assume(nl <= MAXL && nr <= MAXL);
     R->m_begin = lbase; R->m_end = lbase + nl;
-    for (size_t k = 0; k < MAXL; ++k) if (k < nl) { __CPROVER_assume(a[k] < NRP); lbase[k].rule = rs + a[k]; }
-    RuleEntry *sr = malloc(nr * sizeof(RuleEntry)); __CPROVER_assume(sr != NULL);          /* exact size */
-    for (size_t k = 0; k < MAXL; ++k) if (k < nr) { __CPROVER_assume(b[k] < NRP); sr[k].rule = rs + b[k]; }
+    for (size_t k = 0; k < MAXL; ++k) { __CPROVER_assume(a[k] < NRP); lbase[k].rule = rs + a[k]; g_lsort[k] = sort[a[k]]; g_loff[k] = (long)(a[k] * sizeof(Rule)); }
+    RuleEntry *sr = malloc(MAXL * sizeof(RuleEntry)); __CPROVER_assume(sr != NULL);
+    for (size_t k = 0; k < MAXL; ++k) { __CPROVER_assume(b[k] < NRP); sr[k].rule = rs + b[k]; g_rsort[k] = sort[b[k]]; g_roff[k] = (long)(b[k] * sizeof(Rule)); }
     State *st = malloc(sizeof(State)); __CPROVER_assume(st != NULL);
     st->rules = sr; st->rules_end = sr + nr;
     g_self = R; g_state = st; g_lbase = lbase; g_nl = nl; g_rbase = sr; g_nr = nr; g_obase = obase;
     g_i = nondet_size_t(); g_j = nondet_size_t(); g_cnt = 0; g_seen_l = g_seen_r = false;
-    if (g_i < nl) g_xl = lbase[g_i].rule;
-    if (g_j < nr) g_xr = sr[g_j].rule;
+    if (g_i < nl) g_xl_off = g_loff[g_i];
+    if (g_j < nr) g_xr_off = g_roff[g_j];
     Rules_accumulate_rules(R, st);
 }
 void h_accum(void)
 {
     Rule *rs = malloc(NRP * sizeof(Rule)); __CPROVER_assume(rs != NULL);
+    unsigned short sort[NRP];
+    for (size_t m = 0; m < NRP; ++m) rs[m].sort = sort[m];
     g_rules = rs; g_nrules = NRP;
     Rules *R = malloc(sizeof(Rules)); __CPROVER_assume(R != NULL);
-    if (nondet_bool()) run_accum(R, R->m_rules, R->m_rules + MAX_RULES, rs);
-    else               run_accum(R, R->m_rules + MAX_RULES, R->m_rules, rs);
+    R->m_rules = malloc(2 * MAX_RULES * sizeof(RuleEntry)); __CPROVER_assume(R->m_rules != NULL);
+    if (nondet_bool()) run_accum(R, R->m_rules, R->m_rules + MAX_RULES, rs, sort);
+    else               run_accum(R, R->m_rules + MAX_RULES, R->m_rules, rs, sort);
     CANARY();
 }
 #endif
